@@ -26,6 +26,11 @@ ALLOW = [
 
 
 def run(F, R, ctx):
+    _run(F, R, ctx)
+    error_span_rule(F, R)
+
+
+def _run(F, R, ctx):
     R.rule("C12.b", "every call-graph cycle (SCC) of steel-parser reachable from the reader's entry points is allowlisted as "
                     "bounded by something other than nesting depth, or contains a depth guard (stacker::maybe_grow or a depth "
                     "counter compared against a limit)")
@@ -103,3 +108,64 @@ def slice_rule(F, R, reach):
                "boundaries; sites now: %s — a slice whose bound is a character count (or any unchecked offset) makes the "
                "reader itself panic on some text" % (have, k[0], k[1] or "no range", budget, where.get(k)), "",
                sample={"sites": where.get(k, [])[:4]})
+
+
+def error_span_rule(F, R):
+    from . import c07
+    R.rule("C12.e", "an error location that is extended by the width of a character is computed while that character is still "
+                    "unconsumed: in the lexer, every store into Lexer.error whose range end is computed from char::len_utf8 of a "
+                    "peeked character has no call that advances the input (Lexer::eat / Iterator::next on the character "
+                    "stream) on any path between the peek and the store. token_end already includes a consumed character, so "
+                    "adding its width again puts the reported location past the end of the text (or inside a multi-byte "
+                    "sequence)")
+    n = 0
+    for name, fn in sorted(F.fns.items()):
+        if not name.startswith("steel_parser::lexer::"):
+            continue
+        stores = [i for i, _, e in fn.events("fld") if e[1] == "Lexer" and e[2] == "error" and e[3][0] in "wm"]
+        if not stores or not fn.call_blocks(r"::len_utf8$"):
+            continue
+        maps = c07._backward(fn)
+        widths = {}
+        for i, b in fn.calls():
+            d = re.match(r"_\d+", b.get("dest") or "")
+            if d and re.search(r"::len_utf8$", b["callee"]):
+                widths[d.group(0)] = (i, b)
+        peeks = {}
+        for i, b in fn.calls():
+            d = re.match(r"_\d+", b.get("dest") or "")
+            if d and re.search(r"Peekable<I>\}::peek$|::peek$", b["callee"]):
+                peeks[d.group(0)] = i
+        advances = [i for i, b in fn.calls() if re.search(r"\{impl Lexer(<'a>)?\}::eat$|Peekable<I>\}::next$|Iterator for Peekable<I>\}::next$", b["callee"])]
+        for sblk in stores:
+            vals = [e[2] for e in fn.blocks[sblk]["e"] if e[0] == "st" and e[1].endswith(".error")]
+            org = set()
+            for v in vals:
+                for t in lib.TOK.findall(v):
+                    org |= c07._origins(fn, t, maps)
+            ws = [widths[o.split(".")[0]] for o in org if o.split(".")[0] in widths]
+            if not ws:
+                continue
+            n += 1
+            bad = None
+            for wi, wb in ws:
+                corg = set()
+                for a in wb["args"]:
+                    for t in lib.TOK.findall(a):
+                        corg |= c07._origins(fn, t, maps)
+                pk = [peeks[o.split(".")[0]] for o in corg if o.split(".")[0] in peeks]
+                if not pk:
+                    continue
+                for p_ in pk:
+                    for a_ in advances:
+                        # an advance that happens after this peek and before the store, without the peek being repeated
+                        if a_ in fn.reachable_from(fn.succ(p_), avoid=[sblk]) and \
+                                sblk in fn.reachable_from(fn.succ(a_), avoid=[p_]):
+                            bad = a_
+            R.inst("C12.e", "%s / error range using a character's width is computed before the character is consumed" % fn.short(),
+                   bad is None,
+                   "%s consumes the offending character (line %s) and then adds that character's len_utf8 to token_end for the "
+                   "error location: the range is shifted right by the character's width — for an invalid escape at the end of "
+                   "the text, or a multi-byte one, the reported location lies outside the text / inside a UTF-8 sequence" % (
+                       fn.short(), fn.blocks[bad].get("line") if bad is not None else "?"), fn.loc(), sample=True)
+    R.floor("C12.e", "error-range stores that use a character's width", n, 1)
